@@ -11,7 +11,8 @@ Line-protocol driver of the C15 models (stateless: every line is a whole case).
     prog <repaired> <ratRepaired> <content hex> ; <expr, postfix> ; <method>
        expr:   b.err<k> b.bytes b.rat b.rd.<q> b.ch.<q>  (q = g | c | e<k>)
                cs.<l|r>.<d|r>  cc.<l|r>  wt.<0|k>  eh  rp.<l|r>.<d|r>.<0|k>
-       method: size | iw | ra <off> <len> | proto <max> | bs <max> | cr <off> <all|close|one> | rdr <all|close> | discard
+       method: size | iw | ra <off> <len> | proto <max> | bs <max> | cr <off> <all|close|one> | rdr <all|close> | discard | iwf <k>
+               (iwf: res is the result if the writer survives; the writer's error is the alternative)
        -> res=<ok:hex | unsound:hex | err:k | size:n | panic> eof=.. cerr=.. wterm=.. waited=.. closes=<n|-> order=<c<t>,w<t>..|->   or   buildpanic
 -/
 open BB.Driver BB.Mux
@@ -166,6 +167,7 @@ def parseMethod : List String → Option Method
     | _, _ => none
   | ["rdr", a] => (parseAll a).map Method.toReader
   | ["discard"] => some .discard
+  | ["iwf", k] => (nat? k).map Method.intoWriterFailing
   | _ => none
 
 def showIds (l : List Nat) : String :=
